@@ -121,6 +121,13 @@ func buildC08(tier string, seed int64) *Family {
 		in.ID += " lexical"
 		insts = append(insts, in)
 	}
+	// number() / string() without argument: the context node, whatever its kind
+	for _, t := range []string{"number()", "number() + 1", "count(*[number() > 0])", "count(@*[number() >= 1])", "count(text()[number() > 0])", "floor(number())", "sum(*) + number()", "count(//@*[number() = 1]) + count(//text()[number() = 1])"} {
+		insts = append(insts, c08Inst(t, numCfg, nil))
+	}
+	for _, t := range []string{"string()", "string-length(string())", "concat(string(), '|', 9007)"} {
+		insts = append(insts, c08Inst(t, numCfg, strHoles))
+	}
 	add(".5 + 9001")
 	add(".25 * 4")
 	add("9001 - .125")
